@@ -139,8 +139,17 @@ func (s *Sim) checkTx(b *blockObs, i int, tx []byte, r abci.ResponseDeliverTx, b
 	changed := len(diff) > 0
 
 	// ---- C16: a signed transaction changes state at most once
+	if changed && rec.Delivered > 0 && rec.lastEffectiveAt == t.h && !featureOn(codec.TxCacheEnhancementKey, t.h) {
+		// the same bytes twice in one block before the in-block duplicate cache is active: the era
+		// before that feature, which the property does not describe (the index, the only other
+		// duplicate check, is written after the block)
+		s.res.Probe("in_block_duplicate_before_the_duplicate_cache_feature")
+		rec.lastEffectiveAt = t.h
+		return
+	}
 	if changed {
 		rec.Delivered++
+		rec.lastEffectiveAt = t.h
 		rec.Encs = append(rec.Encs, enc)
 		if rec.Delivered > 1 {
 			subject := "identical-bytes"
